@@ -15,6 +15,8 @@ CHECKS = {
  "C04": ("exploration", "Seeded padding schemes from the whole accepted language (sizes up to 2^63-1, reversed ranges, junk, missing lines) x packets of 0..200000 payload bytes written through the real client Session onto a recording pipe; reference parser checks frame alignment at every flush, that removing Waste leaves exactly the submitted frames, that no operation fails/panics/attempts a giant write, and (peer = real server) that the payload is delivered.", "7/C04", ""),
  "C05": ("exploration", "Seeded schemes (sizes <= 65535) x payload sizes x single/concurrent writers; the record lengths of the k-th flush-delimited group on the recorded client transport are checked by a reference acceptor that walks scheme line k; preamble padding0 length from line 0; no padding from packet `stop` on and never from the server.", "7/C05", ""),
  "C06": ("exploration", "Preamble cases partly enumerated by run index (all 256 single-bit flips, a byte deviation per position, related passwords, every truncation offset of one valid preamble ended by EOF/reset/stall) and partly seeded (declared padding lengths incl. 0/65534/65535, random strings), delivered through a fragmenting pipe to the real authenticate_client with a sentinel frame (exact-skip oracle), and in 1 of 8 cases through real rustls to the real Server::listen followed by Settings+SYN+destination with the simulated network watched for dials and plaintext replies.", "7/C06", ""),
+ "C07": ("exploration", "Whole system in the simulator (real Client + SOCKS5/HTTP/UDP front-ends + real Server + DNS cache on the virtual clock + rustls): histories of 1-12 requests over IPv4/IPv6/name destinations (name lengths 1..255) and boundary ports, with virtual gaps inside and beyond the 60 s cache lifetime, tiny-size padding schemes and a raw TLS client that spreads the destination over several PSH frames; oracle = the simulated network's connect/datagram log after every request.", "7/C07", ""),
+ "C10": ("exploration", "Real Client and front-ends against (a) the real Server with targets that accept after a delay / refuse / black-hole and names that resolve slowly / fail / hang, and (b) a scripted TLS server answering each open before / around / after the 30 s wait, twice, for unknown ids, with an error text, never, or killing the session; 1-6 racing opens; oracle on virtual time, the connect log and every byte the application receives (one reply, success only after the connect, reason text, prompt failure on session death).", "7/C10", ""),
  "C09": ("exploration", "Real client or server Session with blocked readers, pending opens and concurrent writers against a scripted peer; exactly one termination cause per run (EOF / reset / unexpected-EOF / write error / flush error at a seeded byte offset inside or between frames, Alert, owner close at a seeded instant, heartbeat give-up) with shutdown ok/err/hang; oracle on virtual time: closed, transport shut, readers and opens released by t0+2s, no write/open hangs, later attempts fail.", "7/C09", ""),
  "C14": ("exploration", "Real client Session with its heartbeat task over the whole (interval, timeout) grid {1,2,3,5,10,30,60}^2, seeded one-way delay up to 0.45 x timeout, peer that answers until it falls silent (never / from start / after k; draining or stalled), with and without stream traffic and waiters; 25+ intervals of virtual time per run; oracle A: never closed while answered in time; oracle B: closed with waiters released within timeout+interval of the last answer received.", "7/C14", ""),
  "C11": ("exploration", "2-6 concurrent tasks re-enacting create_proxy_stream + direct/queued writes + heartbeats on one fresh or established client session with all write-path yield points eligible and seeded transport capacity; oracle on the reference-decoded recorded wire (contiguity, Settings first, SYN before PSH, per-stream order, exactly-once) and delivery through a real server session.", "7/C11", ""),
